@@ -41,6 +41,24 @@ pub fn decode(bytes: &[u8]) -> Case {
     }
     .level(&mut u, &level);
     let mut prep = prepare(&sent);
+    // a word that begins like a cluster: a declared non-ASCII short flag followed by a letter
+    // nobody declares (`-éq`): bpaf reads such an item as a plain word wherever it stands
+    {
+        let (flags, args) = level.visible_shorts();
+        let mb = flags.iter().copied().find(|c| !c.is_ascii());
+        let free = ['q', 'z', 'j', 'x']
+            .into_iter()
+            .find(|c| !flags.contains(c) && !args.contains(c));
+        if let (Some(m), Some(f), true) = (mb, free, u.chance(120)) {
+            if let Some(w) = prep.levels.iter_mut().flat_map(|l| l.words.iter_mut()).next() {
+                if let LKind::Word(b) = &mut w.kind {
+                    if std::str::from_utf8(b).is_ok() {
+                        *b = format!("-{}{}{}", m, f, String::from_utf8_lossy(b)).into_bytes();
+                    }
+                }
+            }
+        }
+    }
     let mut mutated = None;
     if u.chance(60) {
         let li = u.below(prep.levels.len());
